@@ -175,7 +175,7 @@ def search(ctx):
             hs = calc_holo(detector_points(x=x + v[0], y=y + v[1], z=0.0), shift_scatterer(sc, v), illum_polarization=pol0, theory=th, **OPT).values
             ctx.tried("shift", (name, type(sc).__name__, i))
             dev = float(np.abs(hs - h0).max())
-            if dev > max(tol, 1e-10) * scale:
+            if not (dev <= max(tol, 1e-10) * scale):
                 ctx.violation("C05:shift:%s" % name, "shifting scatterer and detector together changed the hologram (dev %.3g)" % dev,
                               dict(kind="shift", v=v.tolist(), **info))
             # whole-pixel shift on a grid
@@ -185,7 +185,7 @@ def search(ctx):
                 g2 = g.assign_coords(x=g.x + 0.4, y=g.y + 0.6)
                 hg2 = calc_holo(g2, shift_scatterer(sc, (0.4, 0.6)), illum_polarization=pol0, theory=th, **OPT)
                 dev = float(np.abs(hg2.values - hg.values).max())
-                if dev > max(tol, 1e-10) * scale:
+                if not (dev <= max(tol, 1e-10) * scale):
                     ctx.violation("C05:shift-grid:%s" % name, "whole-pixel shift of grid and scatterer changed the hologram (dev %.3g)" % dev,
                                   dict(kind="shift-grid", **info))
             # --- rotation about the optical axis, generic angle (Tmatrix only accepts (1,0): rotate by pi there)
@@ -202,7 +202,7 @@ def search(ctx):
             hr = calc_holo(detector_points(x=np.array(xr_), y=np.array(yr_), z=0.0), rotate_scatterer(sc, a, pivot), illum_polarization=polr,
                            theory=mk(), **OPT).values
             dev = float(np.abs(hr - h0).max())
-            if dev > tol * scale:
+            if not (dev <= tol * scale):
                 ctx.violation("C05:rotation:%s" % name, "rotating scatterer, polarisation and detector by %.4f rad changed the hologram (dev %.3g)" % (a, dev),
                               dict(kind="rotation", angle=a, pivot=list(pivot), **info))
             # --- mirror: sphere under x- or y-polarised light is symmetric about both axes through its centre
@@ -216,7 +216,7 @@ def search(ctx):
                         hm = calc_holo(detector_points(x=mx, y=my, z=0.0), sc, illum_polarization=polm, theory=th, **OPT).values
                         ctx.tried("mirror", (name, polm, label, i))
                         dev = float(np.abs(hm - hm0).max())
-                        if dev > tol * scale:
+                        if not (dev <= tol * scale):
                             ctx.violation("C05:mirror:%s" % name, "hologram of a sphere not symmetric about the %s through its centre for polarisation %r (dev %.3g)" % (label, polm, dev),
                                           dict(kind="mirror", axis=label, mpol=list(polm), **info))
         except Exception as ex:
